@@ -240,7 +240,10 @@ class OptimumAcrossOptions(NativeCase):
     weight = 100
 
     def run_native(self, tier):
-        blocks = SMALL_BLOCKS if tier != 'quick' else SMALL_BLOCKS[:10]
+        blocks = SMALL_BLOCKS if tier != 'quick' else SMALL_BLOCKS[:10] + SMALL_BLOCKS[-5:]
+        # load -> possibly aliasing store -> reload shapes: the position bounds must not cut off the optimum
+        blocks = list(blocks) + ["PUSH 1 PUSH 0 MLOAD SWAP1 CALLDATASIZE MSTORE PUSH 0 MLOAD ADD", "PUSH 0 SLOAD PUSH 0 SLOAD ADD",
+                                 "DUP1 MLOAD DUP3 DUP3 MSTORE SWAP1 MLOAD ADD SWAP1 POP", "CALLVALUE PUSH 0 MLOAD PUSH 1 CALLDATASIZE MSTORE SWAP1 MLOAD ADD", "PUSH 0 SLOAD DUP2 PUSH 0 SSTORE PUSH 0 SLOAD ADD SWAP1 POP"]
         crits = [('gas', []), ('size', ['-size']), ('length', ['-length'])]
         n = 0
         for b in blocks:
@@ -252,11 +255,11 @@ class OptimumAcrossOptions(NativeCase):
             for key in spec:
                 base = spec[key]
                 b0 = base["init_progr_len"]
-                if b0 == 0 or b0 > 4:
+                if b0 == 0 or b0 > 9:
                     continue
                 vocab = len(base["user_instrs"]) + 2 * min(base["max_sk_sz"], 17)
                 bf = {}
-                if vocab ** b0 <= 300000:
+                if b0 <= 4 and vocab ** b0 <= 300000:
                     for crit, _o in crits:
                         bf[crit] = brute_force_optimum(base, crit, b0)
                 for crit, copt in crits:
@@ -293,7 +296,7 @@ class OptimumAcrossOptions(NativeCase):
                     if crit in bf and bf[crit] is not None and found:
                         self.ob('optimum of the Max-SMT problem = brute-force optimum', min(costs) == bf[crit][0], inputs=dict(block=b, criterion=crit),
                                 info=dict(maxsmt=sorted(costs), brute_force=bf[crit]))
-        self.assumptions = ("bounded: %d (specification, criterion, option set) problems with init_progr_len <= 4, solved with the z3 python API; "
+        self.assumptions = ("bounded: %d (specification, criterion, option set) problems with init_progr_len <= 9 (brute force for <= 4), solved with the z3 python API; "
                             "costs of dynamic-gas opcodes taken from the tool's own figure" % n,)
         cleanup_tmp()
 
